@@ -136,6 +136,14 @@ func quickHasNewFuncs(dir, goarch string, tags []string) bool {
 			return true
 		}
 		for _, d := range f.Decls {
+			if gd, isGen := d.(*ast.GenDecl); isGen && gd.Tok == token.TYPE {
+				// a type the reference tree does not have (parameters and locals of such types are split by field)
+				for _, sp := range gd.Specs {
+					if ts, ok := sp.(*ast.TypeSpec); ok && !headTypes[ts.Name.Name] && ts.Name.Name != "_" {
+						return true
+					}
+				}
+			}
 			fd, ok := d.(*ast.FuncDecl)
 			if !ok || fd.Name.Name == "init" || fd.Name.Name == "_" {
 				continue
@@ -3692,8 +3700,33 @@ func (n *normalizer) usedLike(fn *types.Func, headKey string) bool {
 				continue
 			}
 			top, _ := n.info.Defs[fd.Name].(*types.Func)
-			if top == nil || !wasSet[funcKeyOf(top)] {
+			if top == nil {
 				continue
+			}
+			if tk := funcKeyOf(top); !wasSet[tk] {
+				// the caller may have been renamed as well: a function the reference tree does not have, with the signature
+				// and receiver of a former caller that is gone
+				if _, known := headFuncs[tk]; known {
+					continue
+				}
+				tsig := sigOfTypes(top.Type().(*types.Signature))
+				trecv := ""
+				if i := strings.Index(tk, "."); i >= 0 {
+					trecv = tk[:i]
+				}
+				renamedCaller := false
+				for _, w := range was {
+					wrecv := ""
+					if i := strings.Index(w, "."); i >= 0 {
+						wrecv = w[:i]
+					}
+					if !n.present[w] && headFuncs[w] == tsig && wrecv == trecv {
+						renamedCaller = true
+					}
+				}
+				if !renamedCaller {
+					continue
+				}
 			}
 			ast.Inspect(fd.Body, func(x ast.Node) bool {
 				if id, ok := x.(*ast.Ident); ok && n.info.Uses[id] == types.Object(fn) {
